@@ -375,6 +375,22 @@ func c09Typed(b *c09Base) []c09Input {
 		}
 	}
 
+	// overlapping sections: a run of 6-byte sections, each declaring 5 bytes but starting a CID whose
+	// digest claims 4096 bytes (taken from what follows). An indexer that walks by "section length
+	// minus CID length" steps backwards over them; each step must not cost a 4 KiB record.
+	{
+		hdr := b.v1[:int(b.payload.HeaderSize)]
+		for _, code := range []byte{0x12, 0x00} {
+			unit := []byte{0x05, 0x01, 0x55, code, 0x80, 0x20}
+			body := append(bytes.Repeat(unit, 2000), bytes.Repeat([]byte{0x05, 0x01}, 2100)...)
+			v1 := append(append([]byte{}, hdr...), body...)
+			for _, o := range []c09Opts{small, {}} {
+				add("overlapping-sections:v1", v1, o)
+				add("overlapping-sections:v2", refcar.EncodeV2(v1, refcar.V2Opts{}), o)
+			}
+		}
+	}
+
 	// CARv2 header fields
 	for _, k := range []string{"v2", "v2nx"} {
 		file := b.of(k)
